@@ -337,6 +337,9 @@ func (c *Ctx) run() {
 	}
 	c.emitAxioms(st)
 	ev := c.newSpecEval(fr, st, c.entry)
+	if con == nil {
+		c.defaultPreconditions(fr, st)
+	}
 	if con != nil {
 		c.evalLets(ev, con)
 		for k, v := range ev.vars {
@@ -432,6 +435,10 @@ func (c *Ctx) trackVal(label string, v Val, t types.Type, st *State) {
 // ---- state epochs / mod application ----
 
 func (c *Ctx) applyModsImpl(st *State, ms *ModSet) {
+	if ms != nil && (ms.Locks || ms.Top) && c.wants("LOCK") {
+		st.held = c.havoc("held", "Int")
+		c.assume("true", fmt.Sprintf("(and (<= 0 %s) (<= %s 2))", st.held, st.held))
+	}
 	old := st.alloc
 	st.alloc = c.havoc("alloc", "Int")
 	c.assume("true", fmt.Sprintf("(>= %s %s)", st.alloc, old))
@@ -493,3 +500,80 @@ func describeMods(ms *ModSet) string {
 }
 
 func isRefLikeT(t types.Type) bool { return t != nil && isRefLike(t) }
+
+// defaultPreconditions: what a swept function without a written contract may assume of its parameters,
+// by type. These are recorded as assumptions (they are obligations only at call sites of functions
+// that do have a written contract).
+func (c *Ctx) defaultPreconditions(fr *Frame, st *State) {
+	fn := c.fn
+	add := func(f string) {
+		c.assume("true", f)
+	}
+	vals := []ssa.Value{}
+	for _, p := range fn.Params {
+		vals = append(vals, p)
+	}
+	for _, fv := range fn.FreeVars {
+		vals = append(vals, fv)
+	}
+	used := false
+	for _, p := range vals {
+		v, ok := fr.vals[p]
+		if !ok || v.T == "" {
+			continue
+		}
+		t := p.Type()
+		if fv, isFV := p.(*ssa.FreeVar); isFV {
+			// captured variables are pointers to cells; the cell content gets the facts
+			if pt, ok := fv.Type().Underlying().(*types.Pointer); ok {
+				l := c.asLoc(v, fv.Type(), st)
+				v = Val{T: c.load(l, st), Typ: pt.Elem()}
+				t = pt.Elem()
+			}
+		}
+		for _, f := range c.defaultFactsFor(v.T, t, st) {
+			add(f)
+			used = true
+		}
+	}
+	if used {
+		c.noteAssumption("default precondition of swept function (no written contract): parameters are well-formed by type (non-nil pointers, isVal interfaces, argsOK slices)")
+	}
+}
+
+func (c *Ctx) isValTerm(x string) string {
+	carriers := []string{"DeferObj", "ReturnObj", "YieldObj"}
+	fs := []string{c.nonNil(x)}
+	for _, n := range carriers {
+		if t, err := c.w.LookupType("*object."+n, "object"); err == nil {
+			fs = append(fs, fmt.Sprintf("(not (= (dtype %s) %s))", x, c.tagOf(t)))
+		}
+	}
+	return and(fs...)
+}
+
+func (c *Ctx) defaultFactsFor(term string, t types.Type, st *State) []string {
+	ts := types.TypeString(t, nil)
+	switch {
+	case ts == repoMod+"/object.PanObject" || ts == repoMod+"/object.PanScalar":
+		return []string{c.isValTerm(term)}
+	case ts == "[]"+repoMod+"/object.PanObject":
+		k := c.fresh("k")
+		a := c.arr(st, c.sorts.ElemArray("Int"), "Int")
+		el := fmt.Sprintf("(select (select %s (s_arr %s)) (+ (s_off %s) %s))", a, term, term, k)
+		return []string{fmt.Sprintf("(forall ((%s Int)) (! (=> (and (<= 0 %s) (< %s (s_len %s))) %s) :pattern (%s)))", k, k, k, term, c.isValTerm(el), el)}
+	}
+	switch u := t.Underlying().(type) {
+	case *types.Pointer:
+		if _, isStruct := u.Elem().Underlying().(*types.Struct); isStruct {
+			return []string{c.nonNil(term)}
+		}
+	case *types.Interface:
+		if c.w.isRepoInterface(t) {
+			return []string{c.nonNil(term)}
+		}
+	case *types.Signature:
+		return []string{c.nonNil(term)}
+	}
+	return nil
+}
